@@ -22,6 +22,7 @@ OBLIGATIONS = [
     (P + "validate_implies_encoding_ok", "clause 4: validateE (declared encoding e) r x = true -> e.valid x = true"),
     (P + "filter_validates_encoded", "clause 1 with a declared ASCII-compatible encoding, for every validator e with EncOk e r"),
     (P + "single_byte_encOk", "EncOk holds for every single-byte charset validator (per-byte test accepting the escape bytes; replacement NUL or accepted byte)"),
+    (P + "ascii_sync_encOk", "EncOk for every validator synchronised at ASCII bytes (AsciiSync; UTF-8 validators are of this kind) whose pre-filter yields valid text"),
     (P + "htmlCaseOk_needed_counterexample", "the HtmlCaseOk hypothesis cannot be dropped for the abstract Rules type (concrete witness, by decide)"),
     (P + "exRules_ok", "non-vacuity: a concrete rule set satisfying RulesOk (examples in Props.lean evaluate validate/filter on it)"),
 ]
